@@ -398,7 +398,45 @@ pub fn run(thorough: bool, mut rng: Rng, mut out: Out) {
         out.case(&scenario_request(&sc, "-"), true);
         out.stat("paging-control-without-value");
     }
-    // 5. a later page in flight when the caller stops: finish(), time-out, abandon of last_id()
+    // 5. non-default search options + caller controls + a stream time-out, at least three pages: every
+    //    SearchRequest on the wire decodes to the same request, the paging cookie apart
+    for k in 0..(if thorough { 60 } else { 12 }) {
+        let size = rng.range(1, 4) as i32;
+        let chain = mk_chain(&chains[k % 3], size);
+        let n_pages = 3 + k % 3;
+        let mut pages = vec![];
+        for p in 0..n_pages {
+            let mut script: Vec<Recv> = (0..size as usize).map(|_| Recv::Item(mk_item(K::E, &mut toks, vec![]))).collect();
+            let cookie = if p + 1 == n_pages { vec![] } else { cookie_pattern(&mut rng, p) };
+            script.push(Recv::Done(Done { rc: 0, refs: vec![], ctls: vec![RespCtl { paged: true, cookie: Some(cookie), tok: 77 }], tok: toks.next() }));
+            pages.push(Page::Script(script));
+        }
+        let others = vec![ReqCtl::Other(rng.range(1, 900)), ReqCtl::Other(rng.range(1, 900))];
+        // deref = Always (3), typesonly = true, sizelimit = 500, timelimit = 30
+        let handle = Handle { ctrls: Some(others.clone()), tmo: true, opts: Some(opts_token(3, true, 500, 30)) };
+        let mut calls = vec![Call::Next; n_pages * size as usize + 1];
+        calls.extend([Call::State, Call::Finish]);
+        let sc = Scenario { chain: chain.clone(), handle, qtok: 4, filter_ok: true, pages: pages.clone(), calls };
+        let o = check_scenario(&mut out, "paged", &sc, false);
+        out.case(&scenario_request(&sc, "-"), true);
+        out.stat("options-controls-timeout");
+        let pc = PagedCase { sc, size, others: others.clone(), consumed: n_pages, dup_paging: false };
+        c16_clauses(&mut out, &pc, &o);
+        let want_fields = format!("base=dc=q4 scope=2 deref=3 sizeLimit=500 timeLimit=30 typesOnly=-1 filter={} attrs=[cn,sn]", "(P 2 7 6f626a656374436c617373)");
+        for (p, r) in o.reqs.iter().enumerate() {
+            let others_here: Vec<ReqCtl> = r.ctls.clone().unwrap_or_default().into_iter().filter(|c| !matches!(c, ReqCtl::Paged(..))).collect();
+            let cookie_here: Option<Vec<u8>> = r.ctls.as_ref().and_then(|cs| cs.iter().find_map(|c| if let ReqCtl::Paged(_, ck) = c { Some(ck.clone()) } else { None }));
+            let want_cookie: Vec<u8> = if p == 0 { vec![] } else { expected_cookies(&pages, n_pages).get(p).cloned().unwrap_or_default() };
+            let ok = r.fields == want_fields && r.fields == o.reqs[0].fields && others_here == others && cookie_here == Some(want_cookie.clone());
+            out.r(
+                &format!("paged.followup-repeats-request page={} chain={}", p + 1, chain_text(&chain)),
+                ok,
+                &format!("request {} decodes to {} controls {:?} ; expected {} with {:?} and cookie {}", p + 1, r.fields, r.ctls, want_fields, others, hex(&want_cookie)),
+            );
+        }
+        out.r(&format!("paged.followup-request-count chain={}", chain_text(&chain)), o.reqs.len() == n_pages, &format!("{} requests for {} pages", o.reqs.len(), n_pages));
+    }
+    // 6. a later page in flight when the caller stops: finish(), time-out, abandon of last_id()
     later_page_cases(&mut out, &mut rng, &mut toks, thorough);
     out.finish("real PagedResults adapter (chains [Paged], [EntriesOnly,Paged], [Paged,EntriesOnly]) against a scripted server that decodes every SearchRequest and feeds the next page: result-set sizes 0..50 x page sizes 1..10 and total+7 (chain rotating; all three when thorough), cookies of 1 / 4 zero / 16 / 300 bytes / text, empty first page, last page with empty cookie or without the control, references / intermediates / per-item controls mixed in, other response controls around the paging control, caller controls / search options / time-out; three quarters read to the end (C16 clauses from the real bytes + ID release), one quarter stopped early; caller-supplied paging control; lost connection / silence on a later page; paging control without value; later page in flight: early finish, per-next time-out, abandon of last_id() from another handle. non-trivial = every case; distinct by FNV of the canonical scenario");
 }
